@@ -175,6 +175,35 @@ def c19_1(ctx):
     while cur is not None and cur.orelse and isinstance(cur.orelse[0], ast.If):
         cur = cur.orelse[0]
     ctx.check(cur is not None and bool(cur.orelse) and body_only_aborts(cur.orelse), 'wellformed:unknown-position', bp.site(), 'an unknown bytecode position is rejected', '')
+    # the guards above are of use only if they run when the definition is loaded: every function that holds one is reached, by
+    # explicit calls, from the model's constructor; and every declared operand set is built there (not on first use)
+    reach = ctx.cg.reachable([init])
+    for q in (OP + '.OperandParser.__init__', 'bespokeasm.assembler.model.operand.types.register.RegisterOperand.__init__',
+              'bespokeasm.assembler.model.operand.types.numeric_bytecode.NumericBytecode.__init__',
+              'bespokeasm.assembler.model.operand.factory.OperandFactory.factory', ISET + '.__init__',
+              'bespokeasm.assembler.model.operand_set.OperandSet.__init__'):
+        gf = ctx.repo.func(q)
+        ctx.check(any(f is gf or f == gf for f in reach.values()), f'wellformed:checked-at-load:{ctx.short(gf)}', gf.site(),
+                  'the function holding this well-formedness guard is reached by explicit calls from AssemblerModel.__init__ (the definition is checked when it is loaded, whether or not a program uses the part)',
+                  'not reachable in the call graph from the model constructor')
+    oc_init = ctx.repo.func('bespokeasm.assembler.model.operand_set.OperandSetCollection.__init__')
+    built = False
+    for lp in [l for l in walk_no_nested(oc_init.node) if isinstance(l, ast.For)]:
+        if '.items()' in unparse(lp.iter) or unparse(lp.iter) in [a.arg for a in oc_init.call_params]:
+            gl = ctx.cfg(oc_init)
+            cs = [c for c in ast.walk(lp) if isinstance(c, ast.Call) and unparse(c.func) == 'OperandSet']
+            if len(cs) == 1 and gl.has_node(cs[0]):
+                head = gl.node_of(lp)
+                be = next((x for x in gl.succ[head] if gl.nodes[x].kind == 'branch' and gl.nodes[x].polarity), None)
+                built = be is not None and gl.all_paths_through(be, head, {gl.node_of(cs[0])})
+    if not built:
+        # a comprehension / update over all items
+        for n in ast.walk(oc_init.node):
+            if isinstance(n, (ast.DictComp, ast.GeneratorExp, ast.ListComp)) and not any(g_.ifs for g_ in n.generators) \
+                    and any(isinstance(c, ast.Call) and unparse(c.func) == 'OperandSet' for c in ast.walk(n)):
+                built = True
+    ctx.check(built, 'wellformed:every-operand-set-built-at-load', oc_init.site(),
+              'the collection builds an OperandSet for every declared operand set in its constructor, unconditionally', 'no unconditional construction per item found')
     # zones: predefined zones are built through MemoryZone (whose constructor guards are C05.3)
     mm = ctx.repo.func('bespokeasm.assembler.memory_zone.manager.MemoryZoneManager.__init__')
     mz = [c for c in ast.walk(mm.node) if isinstance(c, ast.Call) and unparse(c.func) == 'MemoryZone']
